@@ -109,9 +109,10 @@ def configs(args, tier, rnd, feature_args=()):
 
 def jobs(tier, seed):
     js = []
-    for ep in ("mf", "fair", "moment", "lagrangian", "gs", "to"):
+    for ep in ("mf", "fair", "fairw", "moment", "lagrangian", "gs", "to"):
         js.append({"id": f"{ep}-containers", "kind": "containers", "entry": ep, "seed": seed})
-        js.append({"id": f"{ep}-perm", "kind": "perm", "entry": ep, "seed": seed})
+        if ep != "fairw":
+            js.append({"id": f"{ep}-perm", "kind": "perm", "entry": ep, "seed": seed})
     return js
 
 
@@ -222,7 +223,19 @@ def ep_to(v, a):
     return {f"p{i}": np.asarray(pm, dtype=object)[i, 1] for i in range(N)}
 
 
+def ep_fairw(v, a):
+    """concrete distinct weights (so that they can travel in a one-column DataFrame), symbolic predictions: a weight attached to the wrong row changes the term"""
+    import fairlearn.metrics as fm
+
+    mf = fm.MetricFrame(metrics=fm.selection_rate, y_true=a["y"], y_pred=v["bp"], sensitive_features=a["sf"], sample_params={"sample_weight": a["cw"]})
+    out = _flat_frame(mf.by_group, "by_group")
+    out["overall"] = mf.overall
+    out["dpd"] = fm.demographic_parity_difference(a["y"], v["bp"], sensitive_features=a["sf"], sample_weight=a["cw"])
+    return out
+
+
 EPS = {
+    "fairw": (ep_fairw, ["y", "cw", "sf"], ("sf",)),
     "mf": (ep_mf, ["t", "p", "s", "sf", "cf"], ("sf", "cf")),
     "fair": (ep_fair, ["y", "yp", "w", "sf"], ("sf",)),
     "moment": (ep_moment, ["y", "sf", "cf"], ()),
@@ -241,6 +254,10 @@ def _values(ep):
         v["s"] = [real(f"s{i}") for i in range(N)]
     elif ep == "fair":
         v["w"] = [real(f"w{i}", 0, None, lo_strict=True) for i in range(N)]
+    elif ep == "fairw":
+        from symx.core import integer
+
+        v["bp"] = [integer(f"bp{i}", 0, 1) for i in range(N)]
     elif ep in ("moment", "lagrangian", "gs"):
         v["h"] = [real(f"h{i}", 0, 1) for i in range(N)]
         v["lam"] = [real(f"l{j}", 0) for j in range(16)]
@@ -253,7 +270,7 @@ def _args(ep, v, cfg, rnd, perm=None, rename=None):
     perm = perm or list(range(N))
     P = lambda x: [x[i] for i in perm]
     sf = [rename.get(x, x) for x in SF] if rename else SF
-    raw = {"y": P(Y), "yp": P(YP), "sf": P(sf), "cf": P(CF)}
+    raw = {"y": P(Y), "yp": P(YP), "sf": P(sf), "cf": P(CF), "cw": P([1.0, 2.0, 3.0, 5.0])}
     for k in ("t", "p", "s", "w"):
         if k in v:
             raw[k] = P(v[k])
@@ -406,6 +423,8 @@ def replay(cex):
         globals()["_metric"] = conc_metric
     elif ep == "fair":
         v = {"w": [f(f"w{i}", float(i + 1)) for i in range(N)]}
+    elif ep == "fairw":
+        v = {"bp": [int(f(f"bp{i}", float(i % 2))) for i in range(N)]}
     elif ep in ("moment", "lagrangian", "gs"):
         v = {"h": [f(f"h{i}", 0.1 * (i + 1)) for i in range(N)], "lam": [f(f"l{j}", 0.3 * (j + 1)) for j in range(16)]}
     else:
